@@ -31,12 +31,13 @@ type impStruct struct {
 	fieldSet map[string]bool
 	ftype    map[string]string // "Z" or "bool"
 	dropped  map[string]bool
+	isBuf    map[string]bool // bytes.Buffer fields, kept as their length
 }
 
 type impTr struct {
 	fset     *token.FileSet
 	recvType string
-	prefix   string            // Coq name prefix of the receiver type
+	prefix   string // Coq name prefix of the receiver type
 	structs  map[string]*impStruct
 	sorder   []string
 	vars     map[string]string // variable -> struct type, for the method being translated
@@ -50,6 +51,140 @@ type impTr struct {
 	methods  map[string]*ast.FuncDecl
 	order    []string
 	locals   map[string]bool
+	// emitter mode (response-writer wrappers): calls on the embedded writer become events appended to the synthetic field `out`
+	emitter   string          // name of the embedded field (ResponseWriter), "" when off
+	oracles   map[string]bool // methods of the receiver that are not translated: each becomes a bool parameter o_<name>
+	usedOr    map[string]bool // oracles the method being translated mentions
+	flushVars map[string]bool // variables bound by `f, ok := recv.W.(http.Flusher)`
+	gzVars    map[string]bool // variables bound by gzip.NewWriterLevel(recv.W, ...)
+}
+
+var httpStatus = map[string]string{"StatusOK": "200", "StatusSwitchingProtocols": "101", "StatusRequestEntityTooLarge": "413",
+	"StatusNoContent": "204", "StatusNotModified": "304", "StatusContinue": "100"}
+var hdrKeys = map[string]string{"\"Content-Type\"": "H_CT", "\"Content-Length\"": "H_CL", "\"Content-Encoding\"": "H_CE"}
+var hdrVals = map[string]string{"\"gzip\"": "1"}
+
+// isEmbedded: recv.<emitter>
+func (t *impTr) isEmbedded(e ast.Expr, recv string) bool {
+	sel, ok := e.(*ast.SelectorExpr)
+	if !ok || t.emitter == "" || sel.Sel.Name != t.emitter {
+		return false
+	}
+	id, ok := sel.X.(*ast.Ident)
+	return ok && id.Name == recv
+}
+
+// event recognises a call the wrapper makes on the underlying writer and renders it as a wcall term
+func (t *impTr) event(e ast.Expr, recv string) (string, bool, error) {
+	c, ok := e.(*ast.CallExpr)
+	if !ok || t.emitter == "" {
+		return "", false, nil
+	}
+	sel, ok := c.Fun.(*ast.SelectorExpr)
+	if !ok {
+		return "", false, nil
+	}
+	if t.isEmbedded(sel.X, recv) && len(c.Args) == 1 {
+		a, err := t.expr(c.Args[0], recv)
+		if err != nil {
+			return "", false, err
+		}
+		switch sel.Sel.Name {
+		case "WriteHeader":
+			return "CHead " + a, true, nil
+		case "Write":
+			return "CWrite (PRaw " + a + ")", true, nil
+		}
+	}
+	if id, ok := sel.X.(*ast.Ident); ok {
+		if t.flushVars[id.Name] && sel.Sel.Name == "Flush" && len(c.Args) == 0 {
+			return "CFlush", true, nil
+		}
+		if t.gzVars[id.Name] && sel.Sel.Name == "Write" && len(c.Args) == 1 {
+			a, err := t.expr(c.Args[0], recv)
+			if err != nil {
+				return "", false, err
+			}
+			return "CWrite (PGz " + a + ")", true, nil
+		}
+	}
+	// recv.Header().Set / Del
+	if hc, ok := sel.X.(*ast.CallExpr); ok && len(hc.Args) == 0 {
+		if hs, ok := hc.Fun.(*ast.SelectorExpr); ok && hs.Sel.Name == "Header" {
+			if id, ok := hs.X.(*ast.Ident); ok && id.Name == recv {
+				lit := func(i int) string {
+					if bl, ok := c.Args[i].(*ast.BasicLit); ok && bl.Kind == token.STRING {
+						return bl.Value
+					}
+					return ""
+				}
+				switch {
+				case sel.Sel.Name == "Del" && len(c.Args) == 1 && hdrKeys[lit(0)] != "":
+					return "CDel " + hdrKeys[lit(0)], true, nil
+				case sel.Sel.Name == "Set" && len(c.Args) == 2 && hdrKeys[lit(0)] != "" && hdrVals[lit(1)] != "":
+					return "CSet " + hdrKeys[lit(0)] + " " + hdrVals[lit(1)], true, nil
+				}
+				return "", false, fmt.Errorf("%s: header operation outside the subset", t.pos(e))
+			}
+		}
+	}
+	return "", false, nil
+}
+
+// bufWrite: recv.<buf>.Write(b) on a bytes.Buffer field; bufReset: recv.<buf>.Reset()
+func (t *impTr) bufCall(e ast.Expr, recv, method string, nargs int) (string, []ast.Expr, bool) {
+	c, ok := e.(*ast.CallExpr)
+	if !ok || t.emitter == "" || len(c.Args) != nargs {
+		return "", nil, false
+	}
+	sel, ok := c.Fun.(*ast.SelectorExpr)
+	if !ok || sel.Sel.Name != method {
+		return "", nil, false
+	}
+	fs, ok := sel.X.(*ast.SelectorExpr)
+	if !ok {
+		return "", nil, false
+	}
+	id, ok := fs.X.(*ast.Ident)
+	if !ok || id.Name != t.selfVar {
+		return "", nil, false
+	}
+	st := t.structs[t.vars[t.selfVar]]
+	if st.ftype[fs.Sel.Name] != "Z" || !st.isBuf[fs.Sel.Name] {
+		return "", nil, false
+	}
+	return fs.Sel.Name, c.Args, true
+}
+
+func (t *impTr) bufWrite(e ast.Expr, recv string) (string, ast.Expr, bool) {
+	f, args, ok := t.bufCall(e, recv, "Write", 1)
+	if !ok {
+		return "", nil, false
+	}
+	return f, args[0], true
+}
+
+func (t *impTr) bufReset(e ast.Expr, recv string) (string, bool) {
+	f, _, ok := t.bufCall(e, recv, "Reset", 0)
+	return f, ok
+}
+
+func (t *impTr) isGzClose(e ast.Expr) bool {
+	c, ok := e.(*ast.CallExpr)
+	if !ok || len(c.Args) != 0 {
+		return false
+	}
+	sel, ok := c.Fun.(*ast.SelectorExpr)
+	if !ok || sel.Sel.Name != "Close" {
+		return false
+	}
+	id, ok := sel.X.(*ast.Ident)
+	return ok && t.gzVars[id.Name]
+}
+
+func (t *impTr) emitLet(ev string) string {
+	st := t.structs[t.vars[t.selfVar]]
+	return fmt.Sprintf("let self := %sset_out self (%sout self ++ [%s]) in", st.prefix, st.prefix, ev)
 }
 
 func (t *impTr) pos(n ast.Node) string { return t.fset.Position(n.Pos()).String() }
@@ -102,6 +237,9 @@ func (t *impTr) expr(e ast.Expr, recv string) (string, error) {
 				}
 				return "", fmt.Errorf("%s: field %s.%s is not translated and is read", t.pos(e), tn, x.Sel.Name)
 			}
+		}
+		if id, ok := x.X.(*ast.Ident); ok && id.Name == "http" && httpStatus[x.Sel.Name] != "" {
+			return httpStatus[x.Sel.Name], nil
 		}
 		if id, ok := x.X.(*ast.Ident); ok && id.Name == "time" {
 			switch x.Sel.Name {
@@ -177,6 +315,19 @@ func (t *impTr) expr(e ast.Expr, recv string) (string, error) {
 				return t.expr(x.Args[0], recv)
 			}
 		}
+		// len(b) of a byte slice: byte slices are represented by their lengths
+		if id, ok := x.Fun.(*ast.Ident); ok && id.Name == "len" && len(x.Args) == 1 && t.emitter != "" {
+			return t.expr(x.Args[0], recv)
+		}
+		if sel, ok := x.Fun.(*ast.SelectorExpr); ok {
+			if id, ok := sel.X.(*ast.Ident); ok && id.Name == "fmt" && sel.Sel.Name == "Errorf" {
+				return "1", nil
+			}
+			if id, ok := sel.X.(*ast.Ident); ok && id.Name == recv && t.oracles[sel.Sel.Name] {
+				t.usedOr[sel.Sel.Name] = true
+				return "o_" + sel.Sel.Name, nil
+			}
+		}
 		if sel, ok := x.Fun.(*ast.SelectorExpr); ok {
 			if id, ok := sel.X.(*ast.Ident); ok && id.Name == "time" && sel.Sel.Name == "Now" && len(x.Args) == 0 {
 				return "now", nil
@@ -210,6 +361,8 @@ func (t *impTr) expr(e ast.Expr, recv string) (string, error) {
 			case sel.Sel.Name == "After" && len(x.Args) == 1:
 				return "(" + arg + " <? " + base + ")", nil
 			case sel.Sel.Name == "Nanoseconds" && len(x.Args) == 0:
+				return base, nil
+			case (sel.Sel.Name == "Len" || sel.Sel.Name == "Bytes") && len(x.Args) == 0 && t.emitter != "": // bytes.Buffer
 				return base, nil
 			}
 		}
@@ -315,8 +468,27 @@ func (t *impTr) block(stmts []ast.Stmt, rest [][]ast.Stmt, recv string, depth in
 		if len(x.Results) == 0 {
 			return "(self, " + t.zeroRet() + ")", nil
 		}
-		if len(x.Results) == 1 {
-			v, err := t.expr(x.Results[0], recv)
+		if t.emitter != "" && len(x.Results) == 1 {
+			// return recv.W.Write(b) ; return recv.buf.Write(b) ; return gz.Close()
+			if ev, ok, err := t.event(x.Results[0], recv); err != nil {
+				return "", err
+			} else if ok {
+				return t.emitLet(ev) + "\n" + ind + "(self, 0)", nil
+			}
+			if f, arg, ok := t.bufWrite(x.Results[0], recv); ok {
+				a, err := t.expr(arg, recv)
+				if err != nil {
+					return "", err
+				}
+				return fmt.Sprintf("let self := %sset_%s self ((%s%s self) + %s) in\n%s(self, 0)", self.prefix, f, self.prefix, f, a, ind), nil
+			}
+			if t.isGzClose(x.Results[0]) {
+				return "(self, 0)", nil
+			}
+		}
+		if len(x.Results) == 1 || (t.emitter != "" && len(x.Results) == 2) {
+			// (n, err) results: the error is the returned value of the translation
+			v, err := t.expr(x.Results[len(x.Results)-1], recv)
 			if err != nil {
 				return "", err
 			}
@@ -330,6 +502,25 @@ func (t *impTr) block(stmts []ast.Stmt, rest [][]ast.Stmt, recv string, depth in
 		if isLockCall(x.X) || rootedAt(x.X, "logging") {
 			return cont()
 		}
+		if ev, ok, err := t.event(x.X, recv); err != nil {
+			return "", err
+		} else if ok {
+			k, err := cont()
+			if err != nil {
+				return "", err
+			}
+			return t.emitLet(ev) + "\n" + ind + k, nil
+		}
+		if t.emitter != "" && t.isGzClose(x.X) {
+			return cont()
+		}
+		if f, ok := t.bufReset(x.X, recv); ok {
+			k, err := cont()
+			if err != nil {
+				return "", err
+			}
+			return fmt.Sprintf("let self := %sset_%s self 0 in\n%s%s", self.prefix, f, ind, k), nil
+		}
 		if c, ok := x.X.(*ast.CallExpr); ok {
 			if call, ok, err := t.methodCall(c, recv); err != nil {
 				return "", err
@@ -342,6 +533,74 @@ func (t *impTr) block(stmts []ast.Stmt, rest [][]ast.Stmt, recv string, depth in
 			}
 		}
 	case *ast.AssignStmt:
+		if t.emitter != "" && len(x.Rhs) == 1 {
+			names := func() []string { // non-blank names on the left
+				var ns []string
+				for _, l := range x.Lhs {
+					if id, ok := l.(*ast.Ident); ok && id.Name != "_" {
+						ns = append(ns, id.Name)
+					}
+				}
+				return ns
+			}
+			// `_ = gz.Close()`
+			if t.isGzClose(x.Rhs[0]) && len(names()) == 0 {
+				return cont()
+			}
+			// `gz, err := gzip.NewWriterLevel(recv.W, level)`
+			if c, ok := x.Rhs[0].(*ast.CallExpr); ok && len(x.Lhs) == 2 {
+				if sel, ok := c.Fun.(*ast.SelectorExpr); ok && sel.Sel.Name == "NewWriterLevel" && len(c.Args) == 2 && t.isEmbedded(c.Args[0], recv) {
+					if id, ok := sel.X.(*ast.Ident); ok && id.Name == "gzip" {
+						t.gzVars[x.Lhs[0].(*ast.Ident).Name] = true
+						en := x.Lhs[1].(*ast.Ident).Name
+						t.locals[en] = true
+						k, err := cont()
+						if err != nil {
+							return "", err
+						}
+						return fmt.Sprintf("let v_%s := 0 in\n%s%s", en, ind, k), nil
+					}
+				}
+			}
+			// `n, err := recv.W.Write(b)` and the like: the event, then n = what the underlying writer accepted, err = nil
+			if ev, ok, err := t.event(x.Rhs[0], recv); err != nil {
+				return "", err
+			} else if ok && len(x.Lhs) == 2 {
+				var lets []string
+				if id, ok := x.Lhs[0].(*ast.Ident); ok && id.Name != "_" {
+					arg, err := t.expr(x.Rhs[0].(*ast.CallExpr).Args[0], recv)
+					if err != nil {
+						return "", err
+					}
+					t.locals[id.Name] = true
+					lets = append(lets, fmt.Sprintf("let v_%s := accept %s in", id.Name, arg))
+				}
+				if id, ok := x.Lhs[1].(*ast.Ident); ok && id.Name != "_" {
+					t.locals[id.Name] = true
+					lets = append(lets, fmt.Sprintf("let v_%s := 0 in", id.Name))
+				}
+				k, err := cont()
+				if err != nil {
+					return "", err
+				}
+				return strings.Join(append(append([]string{}, lets...), t.emitLet(ev)), "\n"+ind) + "\n" + ind + k, nil
+			}
+			// `err := recv.m(args)` for a translated method
+			if c, ok := x.Rhs[0].(*ast.CallExpr); ok && len(x.Lhs) == 1 {
+				if id, ok := x.Lhs[0].(*ast.Ident); ok && id.Name != "_" {
+					if call, ok, err := t.methodCall(c, recv); err != nil {
+						return "", err
+					} else if ok {
+						t.locals[id.Name] = true
+						k, err := cont()
+						if err != nil {
+							return "", err
+						}
+						return fmt.Sprintf("let '(self, v_%s) := %s in\n%s%s", id.Name, call, ind, k), nil
+					}
+				}
+			}
+		}
 		if len(x.Lhs) == 1 && len(x.Rhs) == 1 {
 			// `b := rl.getOrCreateBucket(...)`: the object the method works on is a parameter of the translation
 			if id, ok := x.Lhs[0].(*ast.Ident); ok && x.Tok == token.DEFINE && id.Name == t.selfVar {
@@ -394,6 +653,23 @@ func (t *impTr) block(stmts []ast.Stmt, rest [][]ast.Stmt, recv string, depth in
 			return fmt.Sprintf("let self := %sset_%s self ((%s%s self) %s 1) in\n%s%s", self.prefix, f, self.prefix, f, op, ind, k), nil
 		}
 	case *ast.IfStmt:
+		if x.Init != nil && t.emitter != "" {
+			// `if f, ok := recv.W.(http.Flusher); ok { ... }`: the underlying writer is a Flusher (trusted base)
+			if as, ok := x.Init.(*ast.AssignStmt); ok && len(as.Lhs) == 2 && len(as.Rhs) == 1 && x.Else == nil {
+				if ta, ok := as.Rhs[0].(*ast.TypeAssertExpr); ok && t.isEmbedded(ta.X, recv) {
+					if ts, ok := ta.Type.(*ast.SelectorExpr); ok && ts.Sel.Name == "Flusher" {
+						if okid, ok := x.Cond.(*ast.Ident); ok && okid.Name == as.Lhs[1].(*ast.Ident).Name {
+							t.flushVars[as.Lhs[0].(*ast.Ident).Name] = true
+							return t.block(x.Body.List, append([][]ast.Stmt{tail}, rest...), recv, depth)
+						}
+					}
+				}
+			}
+			// any other initialiser runs first
+			plain := *x
+			plain.Init = nil
+			return t.block([]ast.Stmt{x.Init, &plain}, append([][]ast.Stmt{tail}, rest...), recv, depth)
+		}
 		if x.Init == nil {
 			if t.mentionsDropped(x.Cond, recv) { // `if r.callback != nil { ... }`
 				return cont()
@@ -480,7 +756,7 @@ func (t *impTr) methodCall(c *ast.CallExpr, recv string) (string, bool, error) {
 	if !ok || id.Name != recv {
 		return "", false, nil
 	}
-	if _, ok := t.methods[sel.Sel.Name]; !ok {
+	if _, ok := t.methods[sel.Sel.Name]; !ok || t.oracles[sel.Sel.Name] {
 		return "", false, nil
 	}
 	var args []string
@@ -498,7 +774,11 @@ func (t *impTr) methodCall(c *ast.CallExpr, recv string) (string, bool, error) {
 	if t.selfVar != recv {
 		ro = " " + t.coqVar(recv)
 	}
-	return fmt.Sprintf("%s%s%s self now %s", t.prefix, sel.Sel.Name, ro, strings.Join(args, " ")), true, nil
+	acc := ""
+	if t.emitter != "" {
+		acc = " accept"
+	}
+	return fmt.Sprintf("%s%s%s%s self now %s", t.prefix, sel.Sel.Name, acc, ro, strings.Join(args, " ")), true, nil
 }
 
 func copyLocals(m map[string]bool) map[string]bool {
@@ -512,13 +792,26 @@ func copyLocals(m map[string]bool) map[string]bool {
 // genImperative translates the named methods of recvType in file.  objType, when not empty, is a second struct: methods
 // that receive (or obtain) a *objType work on that object and only read the receiver.
 func genImperative(repo, rel, recvType, prefix, objType, objPrefix, objVar string, methods []string) (string, error) {
+	return genImperativeOpt(repo, rel, recvType, prefix, objType, objPrefix, objVar, methods, "", nil)
+}
+
+// genImperativeOpt: with emitter != "" the receiver wraps an http.ResponseWriter held in the embedded field of that name: the
+// calls it makes on that writer (WriteHeader, Write, Header().Set/Del, Flush through the http.Flusher assertion, a gzip
+// writer's Write) are appended, as Model.RespWriter.wcall events, to a synthetic field `out`; []byte values and bytes.Buffer
+// fields are represented by their lengths; `accept n` is what the underlying Write reports as written for n bytes; the
+// methods named in oracles are not translated and become bool parameters.
+func genImperativeOpt(repo, rel, recvType, prefix, objType, objPrefix, objVar string, methods []string, emitter string, oracles []string) (string, error) {
 	fset := token.NewFileSet()
 	f, err := parser.ParseFile(fset, filepath.Join(repo, rel), nil, 0)
 	if err != nil {
 		return "", err
 	}
 	t := &impTr{fset: fset, recvType: recvType, prefix: prefix, structs: map[string]*impStruct{},
-		consts: map[string]string{}, errs: map[string]int{}, methods: map[string]*ast.FuncDecl{}}
+		consts: map[string]string{}, errs: map[string]int{}, methods: map[string]*ast.FuncDecl{},
+		emitter: emitter, oracles: map[string]bool{}}
+	for _, o := range oracles {
+		t.oracles[o] = true
+	}
 	want := map[string]string{recvType: prefix}
 	if objType != "" {
 		want[objType] = objPrefix
@@ -548,11 +841,17 @@ func genImperative(repo, rel, recvType, prefix, objType, objPrefix, objVar strin
 				if !ok || !wanted {
 					continue
 				}
-				is := &impStruct{name: ts.Name.Name, prefix: pre, fieldSet: map[string]bool{}, ftype: map[string]string{}, dropped: map[string]bool{}}
+				is := &impStruct{name: ts.Name.Name, prefix: pre, fieldSet: map[string]bool{}, ftype: map[string]string{}, dropped: map[string]bool{}, isBuf: map[string]bool{}}
 				for _, fl := range st.Fields.List {
 					for _, n := range fl.Names {
 						keep := isIntType(fl.Type)
 						ft := "Z"
+						if sel, ok := fl.Type.(*ast.SelectorExpr); ok && emitter != "" && sel.Sel.Name == "Buffer" {
+							if id, ok := sel.X.(*ast.Ident); ok && id.Name == "bytes" {
+								keep = true
+								is.isBuf[n.Name] = true
+							}
+						}
 						if id, ok := fl.Type.(*ast.Ident); ok && t.consts["type:"+id.Name] != "" {
 							keep = true
 						}
@@ -567,6 +866,11 @@ func genImperative(repo, rel, recvType, prefix, objType, objPrefix, objVar strin
 							is.dropped[n.Name] = true
 						}
 					}
+				}
+				if emitter != "" && is.name == recvType {
+					is.fields = append(is.fields, "out")
+					is.fieldSet["out"] = true
+					is.ftype["out"] = "list wcall"
 				}
 				t.structs[is.name] = is
 				t.sorder = append(t.sorder, is.name)
@@ -631,7 +935,12 @@ func genImperative(repo, rel, recvType, prefix, objType, objPrefix, objVar strin
 	}
 	var b strings.Builder
 	fmt.Fprintf(&b, "(* source: %s, type %s.  Every method is one atomic step; integer fields are unbounded Z; time.Time and\n   time.Duration are nanoseconds (the zero Time is 0). *)\n", rel, recvType)
-	b.WriteString("From Helios Require Import Base.Prelude.\n\n")
+	if emitter != "" {
+		b.WriteString("(* calls on the embedded " + emitter + " are events appended to the field `out`; byte slices and buffers are their lengths;\n   `accept n` is the count the underlying Write reports for n bytes; the underlying writer is an http.Flusher *)\n")
+		b.WriteString("From Helios Require Import Base.Prelude Model.RespWriter.\n\n")
+	} else {
+		b.WriteString("From Helios Require Import Base.Prelude.\n\n")
+	}
 	sort.Strings(t.sorder)
 	for _, tn := range t.sorder {
 		is := t.structs[tn]
@@ -715,7 +1024,7 @@ func genImperative(repo, rel, recvType, prefix, objType, objPrefix, objVar strin
 			if c, ok := n.(*ast.CallExpr); ok {
 				if sel, ok := c.Fun.(*ast.SelectorExpr); ok {
 					if id, ok := sel.X.(*ast.Ident); ok && id.Name == recv {
-						if _, ok := t.methods[sel.Sel.Name]; ok && sel.Sel.Name != name && sel.Sel.Name != "getOrCreateBucket" {
+						if _, ok := t.methods[sel.Sel.Name]; ok && sel.Sel.Name != name && sel.Sel.Name != "getOrCreateBucket" && !t.oracles[sel.Sel.Name] {
 							if err := emit(sel.Sel.Name); err != nil {
 								callErr = err
 							}
@@ -729,6 +1038,7 @@ func genImperative(repo, rel, recvType, prefix, objType, objPrefix, objVar strin
 			return callErr
 		}
 		t.locals = map[string]bool{}
+		t.usedOr, t.flushVars, t.gzVars = map[string]bool{}, map[string]bool{}, map[string]bool{}
 		t.selfVar = selfOf(fd)
 		t.vars = map[string]string{recv: recvType}
 		selfType := recvType
@@ -739,6 +1049,9 @@ func genImperative(repo, rel, recvType, prefix, objType, objPrefix, objVar strin
 		var params []string
 		if t.selfVar != recv {
 			params = append(params, fmt.Sprintf("(v_%s : %s)", recv, recvType))
+		}
+		if emitter != "" {
+			params = append(params, "(accept : Z -> Z)")
 		}
 		params = append(params, fmt.Sprintf("(self : %s) (now : Z)", selfType))
 		for _, p := range fd.Type.Params.List {
@@ -771,6 +1084,14 @@ func genImperative(repo, rel, recvType, prefix, objType, objPrefix, objVar strin
 		if t.retBool {
 			rt = "bool"
 		}
+		var ors []string
+		for o := range t.usedOr {
+			ors = append(ors, o)
+		}
+		sort.Strings(ors)
+		for _, o := range ors {
+			params = append(params, fmt.Sprintf("(o_%s : bool)", o))
+		}
 		fmt.Fprintf(&b, "Definition %s%s %s : %s * %s :=\n  %s.\n\n", prefix, name, strings.Join(params, " "), selfType, rt, body)
 		t.order = append(t.order, name)
 		return nil
@@ -779,6 +1100,24 @@ func genImperative(repo, rel, recvType, prefix, objType, objPrefix, objVar strin
 		if err := emit(m); err != nil {
 			return "", err
 		}
+	}
+	if emitter != "" {
+		// the optional interfaces net/http, httputil.ReverseProxy and http.ResponseController look for on a ResponseWriter
+		codes := map[string]int{"Flush": 1, "Hijack": 2, "ReadFrom": 3, "Unwrap": 4, "FlushError": 5, "Push": 6, "CloseNotify": 7,
+			"WriteString": 8, "SetReadDeadline": 9, "SetWriteDeadline": 10, "EnableFullDuplex": 11}
+		var have []int
+		for name := range t.methods {
+			if c, ok := codes[name]; ok {
+				have = append(have, c)
+			}
+		}
+		sort.Ints(have)
+		var hs []string
+		for _, c := range have {
+			hs = append(hs, fmt.Sprint(c))
+		}
+		b.WriteString("(* optional interfaces the type implements: 1 Flush, 2 Hijack, 3 ReadFrom, 4 Unwrap, 5 FlushError, 6 Push, 7 CloseNotify,\n   8 WriteString, 9 SetReadDeadline, 10 SetWriteDeadline, 11 EnableFullDuplex *)\n")
+		fmt.Fprintf(&b, "Definition %soptional_interfaces : list Z := [%s].\n", prefix, strings.Join(hs, "; "))
 	}
 	return b.String(), nil
 }
@@ -793,4 +1132,14 @@ func genHealthGate(repo string) (string, error) {
 
 func genLimiter(repo string) (string, error) {
 	return genImperative(repo, "internal/ratelimiter/ratelimiter.go", "TokenBucketRateLimiter", "rl_", "bucket", "bk_", "b", []string{"refillTokens", "Allow", "bucketMaxAge"})
+}
+
+func genSizeLimitWriter(repo string) (string, error) {
+	return genImperativeOpt(repo, "internal/plugins/sizelimit.go", "limitedResponseWriter", "slg_", "", "", "",
+		[]string{"ensureHeaderWritten", "checkLimit", "WriteHeader", "Write", "Flush"}, "ResponseWriter", nil)
+}
+
+func genGzipWriter(repo string) (string, error) {
+	return genImperativeOpt(repo, "internal/plugins/compression.go", "gzipResponseWriter", "gzg_", "", "", "",
+		[]string{"commit", "streamUncompressed", "WriteHeader", "Write", "Flush", "Finish"}, "ResponseWriter", []string{"shouldGzipBody"})
 }
